@@ -454,7 +454,7 @@ func (e *env) build(i int) *scenario {
 func addGadget(r *rand.Rand, h *gen.History, k int) (tip, xTip, base int, label string) {
 	a, b := r.Intn(k), r.Intn(k)
 	t0 := int64(1600100000)
-	mode := []string{"x-newer", "x-newer", "equal", "x-older", "random"}[r.Intn(5)]
+	mode := []string{"x-newer", "x-newer", "x-newer", "equal", "x-older", "random"}[r.Intn(6)]
 	tm := func(role string) int64 {
 		switch mode {
 		case "x-newer":
